@@ -129,6 +129,8 @@ static MPT_STRUCT(buffer) *_mpt_buffer_alloc_detach(MPT_STRUCT(buffer) *ptr, siz
 	if (mpt_refcount_lower(&buf->_ref)) {
 		const MPT_STRUCT(buffer) *src = &buf->buf;
 		if (mpt_buffer_set(next, src->_content_traits, 0, src + 1, src->_used) < 0) {
+			/* source is still in use by caller */
+			mpt_refcount_raise(&buf->_ref);
 			_mpt_buffer_alloc_unref(next);
 			return 0;
 		}
